@@ -259,7 +259,10 @@ impl<'a> DocGen<'a> {
     }
 
     fn comment_data(&mut self) -> String {
-        let mut s = self.text().replace("--", "- -");
+        let mut s = self.text();
+        while s.contains("--") {
+            s = s.replace("--", "- -");
+        }
         while s.ends_with('-') {
             s.pop();
         }
@@ -395,6 +398,10 @@ pub fn diff_query_pool(rng: &mut Rng) -> Vec<String> {
         "//f/ancestor-or-self::*".into(),
         "(//node())[last()]".into(),
         "//*[not(*)]".into(),
+        "//@*/..".into(),
+        "//processing-instruction('pi-x')".into(),
+        "//processing-instruction()".into(),
+        "//@*/ancestor::*".into(),
     ];
     let n = rng.range(6, 12);
     let mut out = vec![];
@@ -453,6 +460,12 @@ fn query_expr(rng: &mut Rng, failing: bool) -> String {
         "//@zz:x",
         "string(//@xml:lang)",
         "//*[lang('en')]",
+        "//@x/..",
+        "//@*/parent::*",
+        "//@id/ancestor::*",
+        "//processing-instruction('t')",
+        "//processing-instruction('pi-x')",
+        "count(//processing-instruction())",
     ];
     let bad: &[&str] = &[
         "//*[count(1)]",
@@ -467,6 +480,9 @@ fn query_expr(rng: &mut Rng, failing: bool) -> String {
         "//*[position(1)]",
         "(//*)[zz:f()]",
         "//*[zz:*]",
+        "$v",
+        "//*[$v]",
+        "count($v)",
         "count(",
         "//*[",
         "//*]",
